@@ -11,6 +11,11 @@ policies and a recording eviction listener) on the sequential cache model `Fv.Ca
              moi=<0|1> lis=<0|1> t0=<ms>
   <op tokens> => <api result> [; P <policy calls>] [; N <notifications, sorted>] [; O <hash order>]
 
+Manual stream operations (C17, a contended `IterStream`): `stream_open <batch>` (`; O` = hash order),
+`stream_poll [n]` => `pending` | `item:k:v` | `end` (up to `n` polls, stopping after the first
+`pending` / `end`), `hold_entry <k>` => `vacant` | `occupied` (a sync `cache.entry(k)` guard kept
+alive: shard `k % shards` stays write-locked), `release_entry` => `- woke=<0|1>`.
+
 The policy-call section is both an oracle (order of the coalesced read batch, order of
 hash-ordered removals, random victims) and — compared call by call with the calls the model
 makes — the strongest part of the tie.
@@ -42,10 +47,22 @@ def polOps : PolicyOps Pol where
     | .null => .null
     | .real s => .real (Fv.Driver.Policy.clear s)
 
+/-- the hand-polled `IterStream` of the harness (`stream_open` / `stream_poll`): its model state,
+    batch size and the hash order probed when it was opened -/
+structure StreamD where
+  st : StreamSt := {}
+  batch : Nat := 1
+  ord : List Nat := []
+
 structure St where
   cfg : Cfg
   p0 : Pol
   s : State Pol
+  /-- the open stream; dropped by every operation other than `stream_poll`, `hold_entry`,
+      `release_entry`, `advance` -/
+  stream : Option StreamD := none
+  /-- shard whose write lock the harness holds through a kept `cache.entry(k)` guard -/
+  guard : Option Nat := none
 
 def kv := Fv.Driver.Policy.kv
 
@@ -249,10 +266,84 @@ def hintsOf (pl : List String) (nshards : Nat) : Oracle :=
 def stableByShard (l : List PCall) (nshards : Nat) : List PCall :=
   (List.range nshards).flatMap (fun i => l.filter (fun c => pcallShard c == i))
 
+def showPoll : Poll → String
+  | .pending => "pending"
+  | .item k v => s!"item:{k}:{v}"
+  | .done => "end"
+
+/-- up to `n` polls, stopping after the first `Pending` or end -/
+def pollN (cfg : Cfg) (s : State Pol) (locked : Nat → Bool) (d : StreamD) : Nat → StreamSt → List Poll → StreamSt × List Poll
+  | 0, st, acc => (st, acc)
+  | n + 1, st, acc =>
+    let r := streamPoll cfg.nshards d.batch (fun i => s.shardKeys cfg d.ord i) s.map s.now cfg.tti locked st
+    match r.2 with
+    | .item k v => pollN cfg s locked d n r.1 (acc ++ [.item k v])
+    | p => (r.1, acc ++ [p])
+
+/-- the manual stream operations, which are not `Op`s of the sequential model: they never touch the
+    cache state (`stream_open` performs the introspection flush through `stepOp .metrics`) -/
+def stepStream (st : St) (op : List String) (api : String) : Option (Except String (St × List String)) :=
+  match op with
+  | ["hold_entry", k] => some <|
+    match k.toNat? with
+    | none => .error "bad-op"
+    | some k =>
+      if st.guard.isSome then .error "model=guard-already-held" else
+      let mApi := if st.s.occupied k then "occupied" else "vacant"
+      if mApi ≠ api then .error s!"model=[{mApi}]"
+      else .ok ({ st with guard := some (st.cfg.shardOf k) }, ["hold_entry"])
+  | ["release_entry"] => some <|
+    if st.guard.isNone then .error "model=no-guard-held" else
+    -- the release wakes the parked refill future (it is queued on that shard's lock), once
+    let woke := match st.stream with
+      | some d => if d.st.inflight.isSome then 1 else 0
+      | none => 0
+    let mApi := s!"- woke={woke}"
+    if mApi ≠ api then .error s!"model=[{mApi}]"
+    else .ok ({ st with guard := none }, ["release_entry"] ++ (if woke = 1 then ["stream-resume"] else []))
+  | "stream_poll" :: args => some <|
+    match st.stream with
+    | none => .error "model=no-stream-open"
+    | some d =>
+      let n := match args with
+        | [a] => a.toNat?.getD 1
+        | _ => 1
+      let locked : Nat → Bool := fun i => st.guard == some i
+      let (ss, polls) := pollN st.cfg st.s locked d n d.st []
+      let mApi := " ".intercalate (polls.map showPoll)
+      if mApi ≠ api then .error s!"model=[{mApi}]"
+      else
+        let tags := ["stream_poll"] ++
+          (if polls.contains .pending then
+            (match ss.inflight with
+             | some f =>
+               (if d.st.inflight.isSome then ["stream-pending-again"]
+                else if ss.cur.shard = 0 ∧ ss.cur.seen = 0 then ["stream-pending-first-refill"]
+                else ["stream-pending-later-refill"]) ++
+               (if f.shard + 1 = st.cfg.nshards then ["stream-pending-at-last-shard"]
+                else if f.shard = 0 then ["stream-pending-at-first-shard"]
+                else ["stream-pending-at-middle-shard"]) ++
+               (if f.buffer.isEmpty then [] else ["stream-parked-with-partial-batch"])
+             | none => [])
+           else []) ++
+          (if d.st.inflight.isSome ∧ ss.inflight.isNone then ["stream-parked-refill-completed"] else []) ++
+          (if polls.contains .done then ["stream-end"] else [])
+        .ok ({ st with stream := some { d with st := ss } }, tags)
+  | _ => none
+
 def step (st : St) (op res : List String) : Except String (St × List String) :=
+  match stepStream st op (" ".intercalate ((sections res).getD 0 [])) with
+  | some r => r
+  | none =>
+  if st.guard.isSome ∧ op.head? != some "advance" then .error "model=operation-while-entry-guard-held" else
+  -- `stream_open b`: the introspection flush, then a fresh stream
+  let (op, openBatch) := match op with
+    | ["stream_open", b] => (["metrics"], b.toNat?)
+    | _ => (op, none)
   match parseOp op with
   | none => .error "bad-op"
   | some (nm, o) =>
+    let nm := if openBatch.isSome then "stream_open" else nm
     let secs := sections res
     let api := " ".intercalate (secs.getD 0 [])
     let implP := sectionOf secs "P"
@@ -262,7 +353,7 @@ def step (st : St) (op res : List String) : Except String (St × List String) :=
     let orc := { orc with ord := (natList? (implO.getD 0 "[]")).getD [] }
     let (s', ret) := stepOp st.cfg polOps st.p0 orc st.s o
     if s'.oracleBad then .error "model=inadmissible-oracle" else
-    let mApi := showRet nm ret
+    let mApi := if nm = "stream_open" then "-" else showRet nm ret
     let plog := if nm = "multi_remove" ∨ nm = "multi_invalidate" then stableByShard s'.plog st.cfg.nshards else s'.plog
     let mP := plog.map showPCall
     let mN := showNotifs s'.delivered
@@ -274,7 +365,10 @@ def step (st : St) (op res : List String) : Except String (St × List String) :=
         (if s'.removed.any (fun n => n.reason == .capacity) then ["evict-capacity"] else []) ++
         (if s'.removed.any (fun n => n.reason == .expired) then ["evict-expired"] else []) ++
         (if s'.sent.length > s'.delivered.length ∧ !s'.lis.gateClosed then ["notif-dropped"] else [])
-      .ok ({ st with s := s' }, tags)
+      let stream := match openBatch with
+        | some b => some { st := {}, batch := max b 1, ord := orc.ord : StreamD }
+        | none => if nm = "advance" then st.stream else none
+      .ok ({ st with s := s', stream := stream }, tags)
 
 def engine : Engine St := { init := init, step := step }
 
